@@ -119,54 +119,59 @@ def component_choices(n):
     return out
 
 
-def run_program(env, n, prog):
-    """drive the real API; returns (circuit, list of (E builder, is_loss)) for the reference product"""
+def run_program(env, n, prog, mode_type=None):
+    """drive the real API; returns (circuit, list of (E builder, is_loss)) for the reference product.
+    mode_type: None = python ints; 'np' = numpy integers; 'float' = integral floats (every mode argument of the API calls)"""
     import lightworks as lw
     c = lw.Circuit(n)
     ref = []
-    for idx, comp in enumerate(prog):
+    M = {None: (lambda x: x), "np": (lambda x: real_np.int64(x)), "float": (lambda x: float(x))}[mode_type]
+    prog0 = prog
+    prog = [tuple((M(x) if (isinstance(x, int) and not isinstance(x, bool) and k_ in (1, 2) and not (cp[0] == "um" and k_ == 2)) else
+                   ([(M(a), M(b)) for a, b in x] if cp[0] == "swaps" and k_ == 1 else x)) for k_, x in enumerate(cp)) for cp in prog] if mode_type else prog
+    for idx, (comp, comp0) in enumerate(zip(prog, prog0)):
         kind = comp[0]
         if kind == "anc":
             B = block_unitary(env, 2, idx)
             u = lw.Unitary(B)
             u.herald(0, 0)
             c.add(u, comp[1])
-            ref.append(("anc", comp[1], B, idx))
+            ref.append(("anc", comp0[1], B, idx))
         elif kind == "bs":
             r = env.sym(f"r{idx}", 0, 1)
             c.bs(comp[1], comp[2], reflectivity=r, convention=comp[3])
-            ref.append(("bs", comp[1], comp[2], r, comp[3]))
+            ref.append(("bs", comp0[1], comp0[2], r, comp[3]))
         elif kind == "bsl":
             r = env.sym(f"r{idx}", 0, 1)
             l = env.sym(f"l{idx}", 0, 1, lo_strict=True)
             c.bs(comp[1], comp[2], reflectivity=r, loss=l)
-            ref.append(("bs", comp[1], comp[2], r, "Rx"))
-            ref.append(("loss", comp[1], l))
-            ref.append(("loss", comp[2], l))
+            ref.append(("bs", comp0[1], comp0[2], r, "Rx"))
+            ref.append(("loss", comp0[1], l))
+            ref.append(("loss", comp0[2], l))
         elif kind == "ps":
             phi = env.sym(f"phi{idx}")
             c.ps(comp[1], phi)
-            ref.append(("ps", comp[1], phi))
+            ref.append(("ps", comp0[1], phi))
         elif kind == "psl":
             phi = env.sym(f"phi{idx}")
             l = env.sym(f"l{idx}", 0, 1, lo_strict=True)
             c.ps(comp[1], phi, loss=l)
-            ref.append(("ps", comp[1], phi))
-            ref.append(("loss", comp[1], l))
+            ref.append(("ps", comp0[1], phi))
+            ref.append(("loss", comp0[1], l))
         elif kind == "loss":
             l = env.sym(f"l{idx}", 0, 1)
             c.loss(comp[1], l)
-            ref.append(("loss", comp[1], l))
+            ref.append(("loss", comp0[1], l))
         elif kind == "barrier":
             c.barrier()
             ref.append(("barrier",))
         elif kind == "swaps":
             c.mode_swaps(dict(comp[1]))
-            ref.append(("swaps", dict(comp[1])))
+            ref.append(("swaps", dict(comp0[1])))
         elif kind == "um":
             B = block_unitary(env, comp[2], idx)
             c.add(lw.Unitary(B), comp[1])
-            ref.append(("um", comp[1], B))
+            ref.append(("um", comp0[1], B))
         if idx < len(prog) - 1:
             c.U_full        # the matrix is also read between construction steps: a later step must be reflected by the next read (no stale compiled circuit)
     return c, ref
@@ -217,8 +222,13 @@ def reference_U(env, n, ref):
     return U
 
 
-def check_program(env, n, prog, label):
-    c, ref = run_program(env, n, prog)
+def check_program(env, n, prog, label, mode_type=None):
+    try:
+        c, ref = run_program(env, n, prog, mode_type)
+    except TypeError:
+        if mode_type is None:
+            raise
+        return          # the API refuses this representation of a mode number: nothing is claimed (a refusal is not a wrong matrix)
     U = c.U
     Uf = c.U_full
     nl = sum(1 for r in ref if r[0] == "loss")
@@ -320,6 +330,10 @@ def _merge(agg, obs, label):
 def _one(mode, n, prog, label, assignment):
     env = Env(mode, assignment)
     check_program(env, n, prog, label)
+    # the same program with its mode numbers given as numpy integers / integral floats: whatever the API accepts must compile to the same matrix
+    if sum(map(ord, label)) % 7 == 0:
+        for mt in ("np", "float"):
+            check_program(env, n, prog, f"{label};modes-as-{mt}", mt)
     return env.obligations
 
 
